@@ -301,3 +301,13 @@ func (p *Program) MethodsOf(pkg, recv string) []*ssa.Function {
 	sort.Slice(out, func(i, j int) bool { return out[i].Name() < out[j].Name() })
 	return out
 }
+
+// Global returns a package-level variable of a module package.
+func (p *Program) Global(pkg, name string) *ssa.Global {
+	sp := p.SSAPkgs[modPath+"/"+pkg]
+	if sp == nil {
+		return nil
+	}
+	g, _ := sp.Members[name].(*ssa.Global)
+	return g
+}
